@@ -368,3 +368,76 @@ func decodeThroughGenericMap(doc []byte) (decodedDoc, error) {
 	err = json.Unmarshal(again, &out)
 	return out, err
 }
+
+// LINT-LOOPINV: the statement that shortened the list is gone; a leading zero makes the loop spin for ever.
+type scalarHolder struct{ Bytes []byte }
+
+func loopConditionNeverChanges(h *scalarHolder, width int) bool {
+	for len(h.Bytes) > width {
+		if h.Bytes[0] != 0 {
+			return false
+		}
+	}
+	return true
+}
+
+// LINT-NILSIG: the validator tells "no list" from "empty list"; the defensive copy merges them.
+type nsProfile struct{ Attributes []string }
+
+func nsAccepts(p *nsProfile, subject []string) bool {
+	if p.Attributes != nil {
+		return len(subject) <= len(p.Attributes)
+	}
+	return true
+}
+
+func copyLosesNilness(p *nsProfile) *nsProfile {
+	out := *p
+	out.Attributes = append([]string(nil), p.Attributes...)
+	return &out
+}
+
+// LINT-BUFLOOP: the Reset at the top of the loop is gone.
+func bufferNotResetInLoop(items [][]byte) [][]byte {
+	one := new(bytes.Buffer)
+	var out [][]byte
+	for _, it := range items {
+		one.Write([]byte{0x30, byte(len(it))})
+		one.Write(it)
+		out = append(out, append([]byte(nil), one.Bytes()...))
+	}
+	return out
+}
+
+// LINT-NILCHECKED: `||` became `&&`: a document without a version gets past the test.
+type ncProxy struct{ Version *int }
+
+func checkedThenUsedUnchecked(p ncProxy, err error) (int, error) {
+	if err != nil && p.Version == nil {
+		return 0, errors.New("no version")
+	}
+	return *p.Version + 1, nil
+}
+
+// LINT-FILLALL: the special case continues without having stored its element.
+func elementSkippedWithoutStore(in []string) []string {
+	out := make([]string, len(in))
+	for i, s := range in {
+		if strings.HasPrefix(s, "#") {
+			continue
+		}
+		out[len(out)-i-1] = s
+	}
+	return out
+}
+
+// LINT-KNOWNEMPTY: the presence test of the optional URI is the wrong way round.
+type keQualifier struct{ Cps string }
+
+func storesWhatIsKnownEmpty(cps string, out *keQualifier) bool {
+	if !(len(cps) > 0) {
+		out.Cps = cps
+		return true
+	}
+	return false
+}
